@@ -194,8 +194,24 @@ def memo_snapshot(opt, ids):
     return out
 
 
+UNOBSERVABLE = [0]
+
+
 def step_trace(tid, d, levels, cap=400):
-    """one shared Optimizer, the given levels in order; every next_guess() with the internal state after it"""
+    """one shared Optimizer, the given levels in order; every next_guess() with the internal state after it.
+    The cursors, the parse tree and the memo table are implementation details: when they cannot be read the way the
+    I-layer model names them (a refactored generator), the step trace is skipped and counted - the P-layer verdict
+    (drained levels = LevelSet) does not depend on it."""
+    try:
+        return _step_trace(tid, d, levels, cap)
+    except core.MachineryError:
+        raise
+    except Exception:
+        UNOBSERVABLE[0] += 1
+        return None
+
+
+def _step_trace(tid, d, levels, cap=400):
     from lib_guesser.omen.markov_cracker import MarkovCracker
     g = load_real(d)
     om, ids = ordered_model(d)
